@@ -2066,6 +2066,120 @@ def _parent_of(fn, node):
     return None
 
 
+# -------------------------------------------------------------------------------------------------
+# deduced target sets list the base entities in ascending order
+# -------------------------------------------------------------------------------------------------
+
+def rule_deduct_ascending(w):
+    """TargetSetComputer::top_to_bottom (the helper behind deduct_target_sets_from_top): the collection pass appends the marked base entities in ascending base
+    order - the stored value is the variable of ONE ascending counted loop from 0, appended through a counter from 0 advanced once per store, and the final
+    copy is the identity.  PatchHaloBuild lists halo entities in patch-local order, so two neighbouring halos agree only if both patch numberings follow the base order."""
+    ck = w.ck
+    R = "E2.deduct-ascending"
+    fns = [fn for fn in w.find(r"Intern::TargetSetComputer<.*>::top_to_bottom<") if fn.body is not None and [x for x in fn.body.get("s", []) if not FnKinds._is_noise(x)]]
+    if not fns:
+        ck.incomplete(R, "no non-trivial instantiation of Intern::TargetSetComputer::top_to_bottom in the fact base")
+    for fn in fns:
+        fk = w.fk(fn)
+        m = re.search(r"TargetSetComputer<(\d+), (\d+)>", fn.cls or "")
+        name = "TargetSetComputer<%s>::top_to_bottom" % (", ".join(m.groups()) if m else "?")
+        if fk.unknown:
+            ck.incomplete(R, "%s: %s" % (name, "; ".join(x[0] for x in fk.unknown)))
+            continue
+        # collection stores: T[counter] = value with a local counter that is incremented
+        coll = []
+        for e in fk.events:
+            if e.kind == "sub" and e.mode == "write" and e.op == "=" and e.arr is not None and any(f.kind == "loop" for f in e.frames):
+                ix = strip(e.idx)
+                if ix.get("k") == "Ref" and ix.get("dk") == "local" and fk.mut.get(ix.get("d")) and ix.get("d") not in [f.loop.var for f in e.frames if f.kind == "loop" and f.loop is not None]:
+                    coll.append(e)
+        if len(coll) != 1:
+            why = elsewhere(fk, (), names=C12NAMES)
+            ck.incomplete(R, "%s: %d stores through an append counter found%s" % (name, len(coll), ("; " + why) if why else ""))
+            continue
+        st = coll[0]
+        lps = [f.loop for f in st.frames if f.kind == "loop"]
+        ix = strip(st.idx)
+        cv = fk.locals.get(ix["d"])
+        incs = [e for e in fk.events if e.kind == "scalar" and e.var == ix["d"]]
+        c0 = fk.size(cv.get("init")) if cv is not None and cv.get("init") is not None else None
+        if any(lp is None for lp in lps) or len(incs) != 1 or incs[0].op != "++" or frames_key(incs[0].frames) != frames_key(st.frames) or c0 != Lin.const(0):
+            ck.incomplete(R, "%s: the append counter %s is not a counter from 0 advanced once per stored entity / a loop is not read" % (name, ix["n"]))
+            continue
+        problems = []
+        if len(lps) != 1 or lps[0].kind != "range" or lps[0].lo != 0 or st.val_canon != "$%d" % lps[0].depth:
+            problems.append("the appended value %s is not the variable of a single ascending loop over the base entities (loops: %s): the deduced target set lists the same entities in "
+                            "first-encounter order of the parent entities instead of ascending base order; halo lists built from it (patch-local order) then differ between the two "
+                            "neighbours of an irregular patch pair" % (st.val_canon, " > ".join(lp.canon for lp in lps)))
+        # the compaction copy into the final target set is the identity
+        copies = [e for e in fk.events if e.kind == "sub" and e.mode == "write" and e is not st and e.val_canon is not None and e.val_canon.startswith(st.arr.key + "[")]
+        for e in copies:
+            if e.val_canon != "%s[%s]" % (st.arr.key, e.idx_canon):
+                problems.append("the collected entities are copied as %s[%s] = %s (not position by position)" % (e.arr.key, e.idx_canon, e.val_canon))
+        if not copies and not elsewhere(fk, (st.arr.key,), names=C12NAMES):
+            problems.append("the collected list %s is never copied into the target set" % st.arr.key)
+        ck.ob(R, name, not problems, "; ".join(problems) if problems else
+              "marked base entities are appended in the order of the ascending loop %s (counter %s from 0, one advance per entity) and copied position by position" % (lps[0].canon, ix["n"]),
+              fn.file, st.node.get("l"))
+
+
+# -------------------------------------------------------------------------------------------------
+# the cell list of a patch has the length of the row it is copied from
+# -------------------------------------------------------------------------------------------------
+
+def rule_cell_list_extent(w):
+    ck = w.ck
+    R = "E2.cell-list-extent"
+    fns = [fn for fn in w.find(r"Geometry::PatchMeshPartFactory<.*>::PatchMeshPartFactory$") if [p["n"] for p in fn.params] == ["my_rank", "elems_at_rank"]]
+    if not fns:
+        ck.incomplete(R, "PatchMeshPartFactory(my_rank, elems_at_rank) not instantiated")
+    for fn in fns:
+        fk = w.fk(fn)
+        name = short(fn)
+        C = "this._cells_patch"
+        if fk.unknown:
+            ck.incomplete(R, "%s: %s" % (name, "; ".join(x[0] for x in fk.unknown)))
+            continue
+        pushes = [e for e in fk.events if e.kind == "call" and e.obj == C and e.name in ("push_back", "emplace_back")]
+        stores = [e for e in fk.events if e.kind == "sub" and e.mode == "write" and e.arr is not None and e.arr.key == C]
+        sizing = [e for e in fk.events if e.kind == "call" and e.obj == C and e.name in ("resize", "assign")] + \
+                 [e for e in fk.events if e.kind == "alloc" and e.arr.key == C and getattr(e.arr, "extent_expr", None) is not None]
+        fills = pushes + stores
+        rows = set()
+        for e in fills:
+            adj = [f.loop for f in e.frames if f.kind == "loop" and f.loop is not None and f.loop.kind == "adj" and not getattr(f.loop, "container", False)]
+            rows.add((adj[0].obj, fk.canon(adj[0].node_expr)) if len(adj) == 1 and len([f for f in e.frames if f.kind == "loop"]) == 1 else None)
+        if not fills or None in rows or len(rows) != 1:
+            why = elsewhere(fk, (C,), names=C12NAMES)
+            ck.incomplete(R, "%s: the cell list is not filled from one adjacency list of the graph (%d pushes, %d stores)%s" % (name, len(pushes), len(stores), ("; " + why) if why else ""))
+            continue
+        g, row = rows.pop()
+        problems, unclear = [], []
+        if stores and not sizing:
+            unclear.append("the cell list is written by index but never sized")
+        for e in sizing:
+            x = strip(e.node["a"][0]) if e.kind == "call" and e.node.get("a") else strip(getattr(e.arr, "extent_expr", None)) if e.kind == "alloc" else None
+            x = _through_locals(fk, x) if x is not None else None
+            if x is not None and pushes and not stores and fk.size(x) != Lin.const(0) and (not e.frames) and e.seq < pushes[0].seq:
+                problems.append("the cell list is first sized to %s entries and the cells of row %s are then APPENDED behind them: the list starts with that many zeros (cell 0 repeated)" % (
+                    render(x)[:40], row))
+            elif x is not None and x.get("k") == "MCall" and x.get("n") == "degree" and fk.okey(x.get("obj")) == g:
+                if not x.get("a"):
+                    problems.append("the cell list is sized by %s.degree() - without a node argument that is the MAXIMUM degree over all ranks - while the cells of row %s are copied: a patch "
+                                    "smaller than the largest one is padded with cell 0 (listed again and again; the patch meshes no longer contain every cell exactly once)" % (g, row))
+                elif fk.canon(x["a"][0]) != row:
+                    problems.append("the cell list is sized by %s.degree(%s) but filled from the row of %s" % (g, fk.canon(x["a"][0]), row))
+            elif x is not None and pushes and not stores:
+                problems.append("the cell list is sized to %s entries and the cells of row %s are then APPENDED behind them" % (render(x)[:40], row))
+            else:
+                unclear.append("the size expression %s of the cell list is not the degree of a row of %s" % (render(x)[:40] if x is not None else "?", g))
+        if unclear and not problems:
+            ck.incomplete(R, "%s: %s" % (name, "; ".join(unclear)))
+            continue
+        ck.ob(R, name, not problems, "; ".join(problems) if problems else
+              ("the cell list receives exactly the entries of row %s of %s (%s)" % (row, g, "appended one by one" if pushes else "sized by the degree of that row")), fn.file, fills[0].node.get("l"))
+
+
 def run(tier):
     ck = Check("C12", tier)
     ck.rule("E1.member-binding", "the halo builders are wired to the right sets: PatchHaloBuild<Shape,codim> binds the patch part's target set of the face dimension and the "
@@ -2127,6 +2241,11 @@ def run(tier):
             "that they are not the sentinel (max() + 1 == 0: for meshes that are not facet-connected the unreached component looks nearest and patches stay empty)", 1)
     ck.rule("E7.patch-key-fresh", "RootMeshNode::extract_patch continues with the pointer returned by add_patch(key, part) as the part it just built; add_patch inserts with a "
             "non-replacing map insertion, so the key must be known to be absent (a second extraction under the same key returns the first patch)", 2)
+    ck.rule("E2.deduct-ascending", "Intern::TargetSetComputer::top_to_bottom (the helper behind deduct_target_sets_from_top; fact base extended to intern/target_set_computer.hpp): the "
+            "deduced target sets list the base entities in ASCENDING base order - the collection pass appends the variable of one ascending loop over the base entity range, "
+            "through a counter from 0; halo lists are built in patch-local order and agree between neighbours only if both patch numberings follow the base order", 2)
+    ck.rule("E2.cell-list-extent", "PatchMeshPartFactory(my_rank, elems_at_rank): the cell list has exactly the entries of row my_rank - appended one by one, or sized by "
+            "degree(my_rank) of the same graph and row (degree() without argument is the maximum over all rows: smaller patches would be padded with cell 0)", 1)
     w = World(ck, tier)
     rule_member_binding(w)
     rule_kinds(w)
@@ -2147,6 +2266,8 @@ def run(tier):
     rule_partition_kinds(w)
     rule_sentinel_overflow(w)
     rule_patch_key_fresh(w)
+    rule_deduct_ascending(w)
+    rule_cell_list_extent(w)
     if w.norm.log:
         ck.note("read through normalisation (lib/norm_c12.py): " + "; ".join("%s: %s" % (k.replace("FEAT::Geometry::", "")[:70], ", ".join(sorted(set(v)))) for k, v in sorted(w.norm.log.items()))[:1500])
     ck.assume("TargetSet: entries are indices of the parent (base) mesh entities, one per part entity; IndexSet(i,j): i < get_num_entities(), value < get_index_bound(); "
